@@ -126,10 +126,38 @@ def g_operands(c, make):
     run_vectors(c, calls, 'operands')
 
 
+def x_classes_for(t):
+    lo, hi = INT_RANGE[t]
+    return X_CLASSES + [(lo, 0), (hi, 0), (lo * 100 if abs(lo * 100) < 2**127 else lo, 2 if abs(lo * 100) < 2**127 else 0), (hi - 1, 0), (-hi if -hi > -(2**127) else hi, 0)]
+
+
+def g_intforms(c, ops, with_modes=False):
+    """every integer type x operand position x integer class (type MIN/MAX, -1, 0, 1, ...) x Decimal class (incl. the
+    Decimal images of that type's bounds); the operation rotates over `ops`"""
+    calls = []
+    i = 0
+    for mi, mode in enumerate(MODES if with_modes else ['RoundHalfEven']):
+        calls.append({'ev': 'set', 't': 1, 'mode': mode})
+        for t in INT_TYPES9:
+            for ii in range(1, 13):
+                iv = jdec((int_class(t, ii), 0))
+                for xc in x_classes_for(t):
+                    for pos in (0, 1):
+                        i += 1
+                        op = ops[(i + mi) % len(ops)]
+                        n = i % 19
+                        if pos == 0:
+                            calls.append({'ev': 'bin', 't': 1, 'op': op, 'x': jdec(xc), 'y': iv, 'xt': 'dec', 'yt': t, 'n': n, 'acc': 0, 'form': i % 4})
+                        else:
+                            calls.append({'ev': 'bin', 't': 1, 'op': op, 'x': iv, 'y': jdec(xc), 'xt': t, 'yt': 'dec', 'n': n, 'acc': 0, 'form': i % 4})
+    run_vectors_with_modes(c, calls, 'intforms')
+
+
 def plan_C01(c):
     c.mc('MC_BigInt')
     c.mc('MC_Refine', cfg='MC_Refine_ok' if c.tier == 'quick' else 'MC_Refine_ok_full')
     g_bounds(c, ['add', 'sub', 'checked_add', 'checked_sub'])
+    g_intforms(c, ['add', 'sub', 'checked_add', 'checked_sub'])
     v(c, 'c01', 6000, 200000)
 
 
@@ -138,12 +166,14 @@ def plan_C02(c):
     c.mc('MC_Refine', cfg='MC_Refine_halfdown_tie', expect='violation')
     g_small(c, ['mul', 'checked_mul'])
     g_bounds(c, ['mul', 'checked_mul'], with_modes=True)
+    g_intforms(c, ['mul', 'checked_mul'])
     v(c, 'c02', 5000, 150000)
 
 
 def plan_C03(c):
     c.mc('MC_SpecLaws', cfg='MC_SpecLaws' if c.tier != 'quick' else 'MC_SpecLaws_quick')
     g_small(c, ['div', 'checked_div'])
+    g_intforms(c, ['div', 'checked_div'], with_modes=c.tier != 'quick')
     if c.tier != 'quick':
         g_bounds(c, ['div', 'checked_div'], with_modes=True)
     v(c, 'c03', 4000, 120000)
@@ -153,6 +183,7 @@ def plan_C04(c):
     c.mc('MC_Refine', cfg='MC_Refine_ok' if c.tier == 'quick' else 'MC_Refine_ok_full')
     c.mc('MC_Refine', cfg='MC_Refine_trunc_first', expect='violation')      # the double rounding of finding F2 must be rejected
     g_small(c, ['div_rounded', 'mul_rounded', 'quantize'])
+    g_intforms(c, ['div_rounded', 'quantize'], with_modes=c.tier != 'quick')
     v(c, 'c04', 5000, 150000)
 
 
@@ -229,6 +260,7 @@ def plan_C10(c):
     c.mc('MC_Refine', cfg='MC_Refine_rem_loop', expect='violation')
     g_bounds(c, ['rem', 'checked_rem'])
     g_small(c, ['rem', 'checked_rem'])
+    g_intforms(c, ['rem', 'checked_rem'])
     v(c, 'c10', 6000, 200000)
 
 
@@ -321,7 +353,9 @@ def plan_C17(c):
         if i % per == 0:
             calls.append({'ev': 'set', 't': 1, 'mode': modes4[i // per]})
         opn = FORM_OPS[op - 1]
-        x = jdec(X_CLASSES[xi - 1])
+        xcl = x_classes_for(INT_TYPES9[ty]) if ty < 9 else X_CLASSES
+        # the last five class indices of the grid address the Decimal images of the integer type's bounds
+        x = jdec(xcl[xi - 1] if xi <= len(X_CLASSES) - 5 or ty == 9 else xcl[len(X_CLASSES) + (xi - 1) % 5])
         n = (xi + ii) % 19
         if ty == 9:
             y = jdec(X_CLASSES[(xi * 5 + ii) % len(X_CLASSES)])
